@@ -256,7 +256,7 @@ class Gen:
 
     def field(self, d):
         e = self.field_expr(d)
-        out = "{" + self.ch(["", "", " "]) + e
+        out = "{" + (" " if e[:1] == "{" else self.ch(["", "", " "])) + e
         if self.p(0.12):
             out += self.ch(["=", " = ", "= "])
         if self.p(0.3):
@@ -321,7 +321,7 @@ class Gen:
             # prefix does not reach the format-spec constants
             pieces = [x[1:] if x[:1] == "u" else x for x in pieces]
             pieces = [x for x in pieces if not _is_empty_plain(x)] or ["'a'"]
-        sep = (lambda: self.S()) if self.br else (lambda: self.ch([" ", "", "  "]))
+        sep = (lambda: self.S()) if self.br else (lambda: self.ch([" ", " ", "  "]))
         out = pieces[0]
         for x in pieces[1:]:
             s = sep()
